@@ -2,13 +2,27 @@
 
 /*@obligation
 id: C04.lz.reset
+defs: -DLZ_WRAP=0
 props: C03 C04 C05
 entry: h_lz_reset
 unwind: 4
 fn: lz_decoder_reset decode_buffer
-sentinels: 3
+sentinels: 2
 expect: 20
 desc: decode_buffer with the LZ(MA) symbol decoder as a nondeterministic stub: when the stub asks for a dictionary reset (LZMA2 control 0x01 / >=0xE0) the dictionary afterwards has pos=LZ_DICT_INIT_POS, full=0, has_wrapped=false, need_reset=false and a zero byte before pos -- no distance is valid any more, none of the old history can be referenced; output bytes are exactly dict.buf[start..pos) and *out_pos advances by that amount; the write limit handed to the stub never exceeds the output space or the dictionary; wrap-around copies the last LZ_DICT_REPEAT_MAX bytes to the front and sets has_wrapped
+assume: coder->lz.code (lzma_decode / lzma2_decode) is a stub that advances dict.pos up to dict.limit, may set need_reset, and returns any code
+*/
+
+/*@obligation
+id: C04.lz.wrap
+defs: -DLZ_WRAP=1
+props: C03 C04 C05
+entry: h_lz_reset
+unwind: 4
+fn: lz_decoder_reset decode_buffer
+sentinels: 2
+expect: 20
+desc: (dictionary write position at the buffer end: wrap-around case) decode_buffer with the LZ(MA) symbol decoder as a nondeterministic stub: when the stub asks for a dictionary reset (LZMA2 control 0x01 / >=0xE0) the dictionary afterwards has pos=LZ_DICT_INIT_POS, full=0, has_wrapped=false, need_reset=false and a zero byte before pos -- no distance is valid any more, none of the old history can be referenced; output bytes are exactly dict.buf[start..pos) and *out_pos advances by that amount; the write limit handed to the stub never exceeds the output space or the dictionary; wrap-around copies the last LZ_DICT_REPEAT_MAX bytes to the front and sets has_wrapped
 assume: coder->lz.code (lzma_decode / lzma2_decode) is a stub that advances dict.pos up to dict.limit, may set need_reset, and returns any code
 */
 
@@ -89,7 +103,7 @@ static struct in IN VERIF_IN_INIT;
 /* decode_buffer only needs LZ_DICT_INIT_POS <= pos <= size; a small dictionary keeps the query small */
 #define DSIZE (64 + 2 * LZ_DICT_REPEAT_MAX)
 static uint8_t DBUF[DSIZE + LZ_DICT_EXTRA];
-static uint8_t OUT[64];
+static uint8_t OUT[12]; /* cbmc's memcpy with a symbolic length is exponential in the buffer size: keep it small */
 static struct { unsigned calls; size_t start, limit; } GS;
 
 static lzma_ret stub_lz_code(void *c, lzma_dict *restrict dict, const uint8_t *restrict in,
@@ -113,7 +127,11 @@ void h_lz_reset(void)
 	HAVOC(IN, struct in);
 	ASSUME(IN.has_wrapped <= 1 && IN.want_reset <= 1);
 	/* dict_valid: LZ_DICT_REPEAT_MAX <= pos <= size; full consistent */
-	ASSUME(IN.pos >= LZ_DICT_INIT_POS && IN.pos <= DSIZE);
+#if LZ_WRAP
+	ASSUME(IN.pos == DSIZE);
+#else
+	ASSUME(IN.pos >= LZ_DICT_INIT_POS && IN.pos < DSIZE);
+#endif
 	ASSUME(IN.has_wrapped ? IN.full == DSIZE - 2 * LZ_DICT_REPEAT_MAX : IN.full == IN.pos - LZ_DICT_INIT_POS);
 	ASSUME(IN.out_size <= sizeof(OUT) && IN.out_pos <= IN.out_size);
 	/* the stub returns non-OK, or fills the output, so that decode_buffer makes a single pass (the loop is otherwise only re-entered on wrap) */
@@ -133,7 +151,9 @@ void h_lz_reset(void)
 	ASSERT(GS.start == start, "wrap: writing restarts at LZ_DICT_REPEAT_MAX when the buffer end was reached");
 	if (IN.pos == DSIZE) {
 		ASSERT(DBUF[LZ_DICT_REPEAT_MAX - 1] == 0x5A && DBUF[0] == 0xA5, "wrap: the last LZ_DICT_REPEAT_MAX bytes are copied to the front");
+#if LZ_WRAP
 		REACH(lz_wrapped);
+#endif
 	}
 	ASSERT(GS.limit >= start && GS.limit <= DSIZE && GS.limit - start <= IN.out_size - IN.out_pos, "write limit bounded by output space and by the dictionary end");
 	ASSERT(GS.limit - start == (IN.out_size - IN.out_pos < DSIZE - start ? IN.out_size - IN.out_pos : DSIZE - start), "write limit is exactly min(output space, room in dictionary)");
